@@ -1235,7 +1235,14 @@ func (s *Sim) checkRevisions(v *recView) {
 		// update revision; recording the template again under another name while that
 		// record still exists is a revision without a template edit
 		if mig := s.oracles.migrated[set.Name]; mig != nil && mig.tmpl == v.tmpl && mig.updName != upd.Name {
-			if old, exists := Peek[*appsv1.ControllerRevision](s.Store, KRev, set.Namespace, mig.updName); exists && string(old.Data.Raw) == mig.revData[mig.updName] {
+			old, exists := Peek[*appsv1.ControllerRevision](s.Store, KRev, set.Namespace, mig.updName)
+			if exists {
+				// a record that a third party has taken over is not the set's to re-use
+				if ref := controllerOf(old); ref != nil && ref.UID != set.UID {
+					exists = false
+				}
+			}
+			if exists && string(old.Data.Raw) == mig.revData[mig.updName] {
 				for _, c := range rec.Calls[rec.CtlCallIdx:] {
 					if c.Kind == KRev && c.Verb == "create" && c.Err == nil && c.Out != nil && c.Out.GetName() == upd.Name {
 						s.violate("C08", "C08.non-template-edit", "after-migration", fmt.Sprintf("template of the migrated set %s unchanged, its record %s still exists, but the controller recorded it again as %s", set.Name, mig.updName, upd.Name))
